@@ -19,7 +19,8 @@ RULE = (
     "built under two storage set-ups - intermediate_store = tracing store, and work_dir = a directory that does not exist yet - with a "
     "Spec executor that records entry. After building every node, and after each drawn lazy action (plan() with the default / legacy / "
     "fuse-all optimizer or optimization off, visualize() to a scratch file in dot/svg with show_hidden on/off, repr / _repr_html_, "
-    "store/to_zarr(compute=False), rechunk, cubed.plan over several arrays) the check requires: no set/delete and no chunk read in the "
+    "store/to_zarr(compute=False) into fresh targets, into not-yet-existing region targets and over a path that already holds an "
+    "array of the same or another shape, rechunk, cubed.plan over several arrays) the check requires: no set/delete and no chunk read in the "
     "trace, the work directory still absent or empty, the executor never entered, lazy targets not created. Then the documented "
     "execution triggers (compute, eager store/to_zarr, __array__, and for one-element arrays __bool__/__int__/__float__/__index__/"
     "__complex__) are exercised: before the trigger no array of the plan exists in storage, and the trigger enters the executor. "
@@ -29,7 +30,7 @@ ASSUMPTIONS = [
     "metadata reads of input stores by from_zarr are allowed (inputs live in a separate store); visualize writes only the file it was asked to write",
 ]
 
-ACTIONS = ["region-lazy-path", "plan", "plan-noopt", "plan-simple", "plan-fuse-all", "plan-multi", "visualize-dot", "visualize-svg", "visualize-hidden", "repr", "repr-html",
+ACTIONS = ["region-lazy-path", "lazy-over-existing-path", "lazy-over-existing-path-same-shape", "plan", "plan-noopt", "plan-simple", "plan-fuse-all", "plan-multi", "visualize-dot", "visualize-svg", "visualize-hidden", "repr", "repr-html",
            "store-lazy", "to_zarr-lazy", "rechunk", "arrays-meta"]
 TRIGGERS = ["compute", "array", "scalar", "store-eager", "to_zarr-eager", "compute-method"]
 
@@ -236,6 +237,29 @@ def check_case(case) -> Outcome:
                             lz.plan()
                             if any(r[1] in ("set", "set_if_not_exists") for r in ts_new.state.log):
                                 fails.append(Failure("lazy-target-created:region-lazy-path", "planning a lazy region store wrote to its target"))
+                    elif act in ("lazy-over-existing-path", "lazy-over-existing-path-same-shape"):
+                        # the target path already holds an array left by an earlier run (other or same shape): building and planning
+                        # a lazy store over it must not touch it (no resize, no re-creation, no delete)
+                        a = outs[-1]
+                        if a.ndim >= 1 and a.size > 0:
+                            import zarr
+
+                            ts_new = sink_ctx.new_store()
+                            old_shape = tuple(a.shape) if act.endswith("same-shape") else tuple(n + 1 + (k % 2) for k, n in enumerate(a.shape))
+                            z = zarr.create_array(store=ts_new, name="prev", shape=old_shape, chunks=tuple(a.chunksize), dtype=a.dtype)
+                            z[...] = np.ones(old_shape, dtype=a.dtype)
+                            ts_new.state.clear()
+                            lz = cubed.to_zarr(a, ts_new, path="prev", compute=False)
+                            w = ts_new.state.writes()
+                            if w:
+                                fails.append(Failure(f"existing-target-touched:{act}", f"building a lazy store over an existing array issued {w[0][1]} {w[0][2]}"))
+                            lz.plan()
+                            w = ts_new.state.writes()
+                            if w and not fails:
+                                fails.append(Failure(f"existing-target-touched:{act}", f"planning a lazy store over an existing array issued {w[0][1]} {w[0][2]}"))
+                            back = zarr.open_array(store=ts_new, path="prev", mode="r")
+                            if tuple(back.shape) != old_shape and not fails:
+                                fails.append(Failure(f"existing-target-touched:{act}", f"shape {old_shape} -> {tuple(back.shape)}"))
                     elif act == "rechunk":
                         a = outs[-1]
                         if a.ndim and a.size:
